@@ -1,4 +1,5 @@
 import Req.Lemmas.C05Emit
+import Req.H3.Rfc9114
 /-!
 C05 — "whatever the client encodes (HPACK/QPACK field sections …) decodes in the reference decoder
 to exactly what was encoded": the field list the two `encodeHeaders` functions hand to the
@@ -49,6 +50,40 @@ theorem emitted_fields_wellformed (fl : Flavor) (x : XReq) (fs : List (Bytes × 
     refine ⟨?_, b.1.1, ?_, b.2⟩
     · unfold isPseudoNameB at a; simpa using a
     · intro c hc; simpa using b.1.2 c hc
+
+/-- **emitted_regular_fields_rfc9114**: the name rules of the RECEIVED-side specification
+(`Req.H3.Rfc9114`, the predicate `h3_fields_accept_iff` proves `updateResponseFromHeaders` enforces
+on what the client receives) hold for every regular field the client EMITS: lower-case name
+(§4.2), a token (RFC 9110 §5.1), not connection-specific (§4.2) — and no pseudo-header field among
+them (§4.3). What the client sends passes the name checks it applies to its peer. (The value rule
+and `te: trailers` are inputs of the caller: a `TE: gzip` request header is forwarded unchanged, as
+by the upstream writers; the lanes count that class.) -/
+theorem emitted_regular_fields_rfc9114 (fl : Flavor) (x : XReq) (fs : List (Bytes × Bytes))
+    (h : fieldsX fl x = .ok fs) :
+    ∃ ps rs, fs = ps ++ rs ∧ (∀ f ∈ ps, f.1.head? = some 58) ∧
+      ∀ f ∈ rs, ¬ Req.H3.Rfc9114.IsPseudo ⟨f.1, f.2⟩ ∧ Req.H3.Rfc9114.LowercaseName f.1 ∧
+        Req.H3.Rfc9114.IsToken f.1 ∧ ¬ Req.H3.Rfc9114.ConnectionSpecific f.1 := by
+  obtain ⟨ps, rs, rfl, hp, _, hn, _, _, hr⟩ := emitted_fields_wellformed fl x fs h
+  refine ⟨ps, rs, rfl, ?_, ?_⟩
+  · intro f hf
+    exact (hn f.1 (hp.mem_iff.mp (List.mem_map_of_mem (f := (·.1)) hf))).2
+  · intro f hf
+    obtain ⟨h1, h2, h3, h4⟩ := hr f hf
+    refine ⟨?_, ?_, ⟨h2, fun c hc => (h3 c hc).1⟩, ?_⟩
+    · rintro ⟨tl, htl⟩
+      simp only at htl
+      rw [htl] at h1
+      simp at h1
+    · intro c hc hcu
+      have := (h3 c hc).2
+      simp only [isUpper, Bool.and_eq_false_iff, decide_eq_false_iff_not] at this
+      rcases this with a | a
+      · exact a hcu.1
+      · exact a hcu.2
+    · intro hcs
+      apply h4
+      unfold Req.H3.Rfc9114.ConnectionSpecific at hcs
+      rcases hcs with e | e | e | e | e <;> rw [e] <;> decide
 
 /-- **emitted_section_ok**: the decidable request-section check (`requestSectionOK`: pseudo-header
 prefix, each a request pseudo-header exactly once, `:method`/`:authority` present, `:path` and
